@@ -474,6 +474,9 @@ def cases():
         for k in range(2 if tier == 'quick' else 4):
             m = pick[(i + 3 * k) % len(pick)]
             out.append({'label': '%s/f%d' % (m.name, i), 'mesh': m, 'fields': fields, 'layout': families.scatter_layouts(m, rnd, 2), 'geom': (i + k) % 3})
+    # 162 fields: the field names alone take more than 1 kB of the Header (an 80-species mechanism with Y(...) and I_R(...))
+    big = ['Y(S%d)' % i for i in range(80)] + ['I_R(S%d)' % i for i in range(80)] + ['density', 'temp', 'enstrophy', 'mag_vort', 'Qcrit']    # classes of their own, last
+    out.append({'label': 'many-fields', 'mesh': [m for m in meshes if m.name == '2d-1box-5x3'][0], 'fields': big, 'layout': None, 'geom': 0})
     for r in range(2 if tier == 'quick' else 60):
         m = families.random_mesh(rnd, 2 + r % 2, max_levels=3, max_boxes=4, max_extent=4)
         m.name = 'rand%d-%dd' % (r, m.ndims)
